@@ -1,1 +1,295 @@
-// doubles
+//! Test doubles: state views (map / scripted / recording / delaying), audited gas cost tables.
+
+use crate::model::ops::{MOp, N_OPS};
+use crate::model::vm::ModelState;
+use essential_types::{ContentAddress, Key, Word};
+use essential_vm::{StateRead, StateReads};
+use serde::{Deserialize, Serialize};
+use std::collections::{BTreeMap, BTreeSet};
+use std::sync::atomic::{AtomicU64, Ordering};
+use std::sync::{Arc, Mutex};
+
+pub type Addr = [u8; 32];
+
+#[derive(Clone, Debug, PartialEq, Eq, Hash, Serialize, Deserialize)]
+pub struct StErr(pub String);
+
+impl std::fmt::Display for StErr {
+    fn fmt(&self, f: &mut std::fmt::Formatter<'_>) -> std::fmt::Result {
+        write!(f, "state error: {}", self.0)
+    }
+}
+
+/// The repository's key increment convention: last word + 1, MAX -> MIN with carry, None on overflow.
+pub fn next_key(mut key: Vec<i64>) -> Option<Vec<i64>> {
+    for w in key.iter_mut().rev() {
+        if *w == i64::MAX {
+            *w = i64::MIN;
+        } else {
+            *w += 1;
+            return Some(key);
+        }
+    }
+    None
+}
+
+/// More values than this can never fit the VM memory (2 words of pair table per value).
+pub const MATERIALISE_CAP: usize = 6000;
+
+#[derive(Clone, Debug, Default, PartialEq, Eq, Hash, Serialize, Deserialize)]
+pub struct MapSpec {
+    pub contracts: Vec<(Addr, Vec<(Vec<i64>, Vec<i64>)>)>,
+    /// Reads of these contracts fail with an error.
+    pub fail_contracts: Vec<Addr>,
+}
+
+#[derive(Clone, Debug, PartialEq, Eq, Hash, Serialize, Deserialize)]
+pub enum ViewSpec {
+    Map(MapSpec),
+    /// Answers every request with exactly this, whatever was asked.
+    Scripted(Result<Vec<Vec<i64>>, String>),
+}
+
+impl Default for ViewSpec {
+    fn default() -> Self {
+        ViewSpec::Map(MapSpec::default())
+    }
+}
+
+#[derive(Clone, Debug, Default, PartialEq, Eq, Hash, Serialize, Deserialize)]
+pub struct StateSpec {
+    pub pre: ViewSpec,
+    pub post: ViewSpec,
+}
+
+pub enum ViewImpl {
+    Map {
+        map: BTreeMap<Addr, BTreeMap<Vec<i64>, Vec<i64>>>,
+        fail: BTreeSet<Addr>,
+    },
+    Scripted(Result<Vec<Vec<i64>>, String>),
+}
+
+impl ViewImpl {
+    pub fn from_spec(s: &ViewSpec) -> ViewImpl {
+        match s {
+            ViewSpec::Map(m) => {
+                let mut map: BTreeMap<Addr, BTreeMap<Vec<i64>, Vec<i64>>> = BTreeMap::new();
+                for (c, kvs) in &m.contracts {
+                    let e = map.entry(*c).or_default();
+                    for (k, v) in kvs {
+                        if v.is_empty() {
+                            e.remove(k);
+                        } else {
+                            e.insert(k.clone(), v.clone());
+                        }
+                    }
+                }
+                ViewImpl::Map {
+                    map,
+                    fail: m.fail_contracts.iter().copied().collect(),
+                }
+            }
+            ViewSpec::Scripted(r) => ViewImpl::Scripted(r.clone()),
+        }
+    }
+
+    pub fn read(&self, contract: &Addr, key: &[i64], count: usize) -> Result<Vec<Vec<i64>>, StErr> {
+        match self {
+            ViewImpl::Scripted(r) => r.clone().map_err(StErr),
+            ViewImpl::Map { map, fail } => {
+                if fail.contains(contract) {
+                    return Err(StErr(format!("contract {:02x}{:02x}.. unavailable", contract[0], contract[1])));
+                }
+                let c = map.get(contract);
+                let mut out = Vec::new();
+                let mut k = key.to_vec();
+                for _ in 0..count.min(MATERIALISE_CAP) {
+                    out.push(c.and_then(|c| c.get(&k)).cloned().unwrap_or_default());
+                    match next_key(k) {
+                        Some(n) => k = n,
+                        None => break,
+                    }
+                }
+                Ok(out)
+            }
+        }
+    }
+}
+
+#[derive(Clone, Debug, PartialEq, Eq)]
+pub struct Req {
+    pub seq: u64,
+    pub post: bool,
+    pub contract: Addr,
+    pub key: Vec<i64>,
+    pub count: usize,
+}
+
+#[derive(Default)]
+pub struct Log {
+    pub seq: AtomicU64,
+    pub reqs: Mutex<Vec<Req>>,
+}
+
+/// Spin for a generated number of iterations (schedule perturbation, C02).
+pub fn spin(iters: u64) {
+    let mut x = 0u64;
+    for i in 0..iters {
+        x = x.wrapping_mul(6364136223846793005).wrapping_add(i);
+        std::hint::black_box(x);
+    }
+}
+
+/// Delay table: delay for a request is chosen by a hash of (key, count) so that it is a pure
+/// function of the case.
+#[derive(Clone, Debug, Default, PartialEq, Eq, Hash, Serialize, Deserialize)]
+pub struct DelayTable {
+    pub salt: u64,
+    pub max_spin: u64,
+}
+
+impl DelayTable {
+    pub fn delay_for(&self, key: &[i64], count: usize) -> u64 {
+        if self.max_spin == 0 {
+            return 0;
+        }
+        let h = crate::engine::case_hash(&(self.salt, key, count));
+        h % self.max_spin
+    }
+}
+
+#[derive(Clone)]
+pub struct View {
+    pub post: bool,
+    pub imp: Arc<ViewImpl>,
+    pub log: Option<Arc<Log>>,
+    pub delay: Option<DelayTable>,
+}
+
+impl StateRead for View {
+    type Error = StErr;
+    fn key_range(&self, contract_addr: ContentAddress, key: Key, num_values: usize) -> Result<Vec<Vec<Word>>, StErr> {
+        if let Some(d) = &self.delay {
+            spin(d.delay_for(&key, num_values));
+        }
+        if let Some(log) = &self.log {
+            let seq = log.seq.fetch_add(1, Ordering::SeqCst);
+            log.reqs.lock().unwrap().push(Req {
+                seq,
+                post: self.post,
+                contract: contract_addr.0,
+                key: key.clone(),
+                count: num_values,
+            });
+        }
+        self.imp.read(&contract_addr.0, &key, num_values)
+    }
+}
+
+#[derive(Clone)]
+pub struct Views {
+    pub pre: View,
+    pub post: View,
+}
+
+impl StateReads for Views {
+    type Error = StErr;
+    type Pre = View;
+    type Post = View;
+    fn pre(&self) -> &View {
+        &self.pre
+    }
+    fn post(&self) -> &View {
+        &self.post
+    }
+}
+
+impl Views {
+    pub fn from_spec(spec: &StateSpec, log: Option<Arc<Log>>) -> Views {
+        Views {
+            pre: View {
+                post: false,
+                imp: Arc::new(ViewImpl::from_spec(&spec.pre)),
+                log: log.clone(),
+                delay: None,
+            },
+            post: View {
+                post: true,
+                imp: Arc::new(ViewImpl::from_spec(&spec.post)),
+                log,
+                delay: None,
+            },
+        }
+    }
+}
+
+/// The model's (non-recording) view of the same state.
+pub struct ModelViews {
+    pub pre: ViewImpl,
+    pub post: ViewImpl,
+}
+
+impl ModelViews {
+    pub fn from_spec(spec: &StateSpec) -> Self {
+        ModelViews {
+            pre: ViewImpl::from_spec(&spec.pre),
+            post: ViewImpl::from_spec(&spec.post),
+        }
+    }
+}
+
+impl ModelState for ModelViews {
+    fn read(&self, post: bool, contract: &[u8; 32], key: &[i64], count: usize) -> Result<Vec<Vec<i64>>, String> {
+        let v = if post { &self.post } else { &self.pre };
+        v.read(contract, key, count).map_err(|e| e.0)
+    }
+}
+
+/// Gas cost table with an audit trail.
+#[derive(Clone, Debug, PartialEq, Eq, Hash, Serialize, Deserialize)]
+pub struct CostTable(pub Vec<u64>);
+
+impl CostTable {
+    pub fn uniform(c: u64) -> Self {
+        CostTable(vec![c; N_OPS])
+    }
+    pub fn cost(&self, op: &MOp) -> u64 {
+        self.0[op.index()]
+    }
+}
+
+pub struct AuditGas {
+    pub table: CostTable,
+    pub count: AtomicU64,
+    pub sum: Mutex<u128>,
+    /// Optional spin per cost request (schedule perturbation): hash(salt, op index) % max.
+    pub delay: Option<DelayTable>,
+}
+
+impl AuditGas {
+    pub fn new(table: CostTable) -> Self {
+        AuditGas {
+            table,
+            count: AtomicU64::new(0),
+            sum: Mutex::new(0),
+            delay: None,
+        }
+    }
+    pub fn handed_out(&self) -> (u64, u128) {
+        (self.count.load(Ordering::SeqCst), *self.sum.lock().unwrap())
+    }
+}
+
+impl essential_vm::OpGasCost for AuditGas {
+    fn op_gas_cost(&self, op: &essential_asm::Op) -> u64 {
+        let m = MOp::from_real(op);
+        let c = self.table.cost(&m);
+        self.count.fetch_add(1, Ordering::SeqCst);
+        *self.sum.lock().unwrap() += c as u128;
+        if let Some(d) = &self.delay {
+            spin(d.delay_for(&[m.index() as i64], self.count.load(Ordering::Relaxed) as usize % 7));
+        }
+        c
+    }
+}
